@@ -149,7 +149,7 @@ def setup_dir(cfg, init_ops):
 def observe(directory, cfg, files0=None):
     """What a fresh handle sees after the kill (all through public API + raw reads)."""
     import diskcache
-    obs = {'ev': 'obs', 'opened': 0, 'wrote': 0, 'clean2': 0, 'warn1': [], 'readable': 1, 'settings_bad': []}
+    obs = {'ev': 'obs', 'opened': 0, 'wrote': 0, 'clean2': 0, 'warn1': [], 'readable': 1, 'settings_bad': [], 'count_follows': 1}
     clock = envctl.Clock().install()
     clock.tick = cfg.get('now', 0)
     try:
@@ -216,6 +216,11 @@ def observe(directory, cfg, files0=None):
         obs['warn1'] = sorted(set(kinds))
         try:
             c.set('__verif_probe__', 1)
+            # the bookkeeping follows a write made after the kill (the counters are maintained by the database itself)
+            con2 = interpose.real_connect(os.path.join(directory, 'cache.db'), timeout=2, isolation_level=None)
+            ((nrows,),) = con2.execute('SELECT COUNT(*) FROM Cache').fetchall()
+            con2.close()
+            obs['count_follows'] = 1 if len(c) == nrows else 0
             del c['__verif_probe__']
             obs['wrote'] = 1
         except Exception:
